@@ -5,6 +5,11 @@ V = os.path.dirname(os.path.dirname(os.path.abspath(__file__)))
 props = [json.loads(l) for l in open(os.path.join(V, "properties.jsonl"))]
 TB = "Trusted: rustc's MIR construction and type checking (nightly 1.97, mir-opt-level=0), the checker's own abstract interpreter / rule code (validated against seeded mutants and benign edits), std collection semantics."
 CLAIMS = {
+ "C01": dict(
+   technique="panic-site inventory over type-checked MIR with per-site discharge rules (offset provenance, length guards by abstract interpretation, constructor invariant, finite token language, constant regexes, extracted-model exploration, reviewed table); loop-driver and recursion-shape rules; id pass-through by path enumeration",
+   text="Static: every Assert terminator, unwrap / expect, explicit panic, indexing and documented-to-panic callee in user-written bodies reachable from add_content / validate (the user grammar actions included) is enumerated from MIR (26 sites) and must be discharged: offsets given to the line/column lookup are untouched @L/@R captures or lalrpop's own token boundaries; slice indices are guarded by a length switch (interpreted for lengths 0..24); arity assumptions follow from a constructor invariant proved over all type productions; the Direction fall-through arm is unreachable because the DIRECTION token language equals the handled words; regexes are constant and parse; marker unwraps are unreachable in the explored abstract machine; four sites in the doc-comment scanner are reviewed entries conditioned on byte-typed counters. Loops are driven by std iterators, recursion is structural, and the result map has exactly the stored ids, each result tagged with its id.",
+   note=TB + " lalrpop 0.19.8 runtime / generated driver terminate and do not panic (TB-2). Panics inside dependencies for valid arguments, stack depth and allocation failure are not decided; 4 sites rest on a reviewed table.",
+   design="DESIGN.md section 4, C01"),
  "C02": dict(
    technique="abstract interpretation of every user-written grammar action joined with lalrpop's lowered productions (field-by-field wiring vs a role-based spec); DFA equality of token / trivia languages with independently written references; layout non-interference rule",
    text="Static: each of the 65 user-written actions is interpreted with one symbolic value per production symbol, so every AST field is a term over production symbols; 150+ field obligations are compared with spec/wiring.json (names, flags, children and their order, qualified-name joining, flatten-only filtering, CommaSeparated order, type constructors). Layout independence is decided lexically (skipped patterns = Unicode whitespace runs, line and block comments, by DFA equality; token classes, priorities and the keyword rule) plus a non-interference rule: no field other than ranges / doc depends on a position capture, the input or the lookup.",
